@@ -2,8 +2,8 @@
 """Generates /verif/MANIFEST.json from one table (kept in this file)."""
 import json, subprocess, sys
 
-HOOK_COMMIT = subprocess.run(["git", "-C", "/repo", "log", "--format=%H", "--grep=Add zvt_verif feature", "-1"],
-                             capture_output=True, text=True).stdout.strip()
+HOOK_COMMITS = subprocess.run(["git", "-C", "/repo", "log", "--reverse", "--format=%H", "--grep=zvt_verif"],
+                              capture_output=True, text=True).stdout.split()
 
 WIRE = "wire"
 CLIENT = "client"
@@ -15,11 +15,11 @@ CHECKS = {
    note="Trusted: the corpus reaches the relevant decode paths (valid-corpus family decodes Ok for the matching parser); release build with overflow-checks=true makes wrap-around observable as a panic."),
  "C04": dict(level="fault_enumeration", engine=WIRE, ref="6 (C04)",
    technique="deterministic simulation: chunking schedules and end-of-stream fault at every byte position over the real transport",
-   text="Real write_packet output and reference-framed packets are read back by the real read_packet::<RawFrame> over a SimConn that decides every read size and Pending: all 2^11 partitions of a 12-byte three-packet stream, all partitions of an extended header, EOF/ECONNRESET at every byte position of a five-packet stream, writer/reader header agreement for every body length 0..65535 (thorough), PRNG streams and schedules. Oracle: frames byte-identical and in order, read cursor exactly at each boundary (no read-ahead), truncated stream yields an error and never a packet.",
+   text="Real write_packet output and reference-framed packets are read back by the real read_packet::<RawFrame> over a SimConn that decides every read size and Pending: all 2^11 partitions of a 12-byte three-packet stream, all partitions of an extended header, EOF/ECONNRESET at every byte position of a five-packet stream, writer/reader header agreement for every body length 0..65535 (thorough), a stall of the peer (1 ms .. 1 h of virtual time, on both sides of 5 s and 60 s) at every byte position of the headers and around the packet boundaries, PRNG streams, schedules and stalls. Oracle: frames byte-identical and in order, read cursor exactly at each boundary (no read-ahead), truncated stream yields an error and never a packet.",
    note="Trusted: reference APDU framing in refcodec.rs; RawFrame sees exactly the slice the transport passes to a parser."),
  "C05": dict(level="exploration", engine=WIRE, ref="6 (C05)",
    technique="deterministic simulation: seeded search over reply scripts x terminal release modes x I/O schedules against a reference model of the sequence layer",
-   text="Each of the 17 real Sequence::into_stream - and the real firmware upload WriteFile::into_stream as an 18th, with PRNG payload directories and request scripts - runs against a scripted terminal: every script non-final^d final over the command's reply alphabet to depth 3 (quick) / 4 (thorough), PRNG scripts to depth 40, in lockstep (next reply only after exactly one answer), eager (everything queued: read-ahead visible on the cursor) and paced mode, under whole / one-byte / PRNG chunking, short writes and Pending. The reference model predicts, event by event, command frame, one 80 00 00 per packet written at the packet's end offset and before the item is handed over, items in order with the packet type's own decode, end right after the first final packet, cursor at its end, queued tail untouched, no I/O after the end. Packets longer than 254 bytes (extended header) occur in every alphabet.",
+   text="Each of the 17 real Sequence::into_stream - and the real firmware upload WriteFile::into_stream as an 18th, with PRNG payload directories and request scripts - runs against a scripted terminal: every script non-final^d final over the command's reply alphabet to depth 3 (quick) / 4 (thorough), PRNG scripts to depth 40, in lockstep (next reply only after exactly one answer), eager (everything queued: read-ahead visible on the cursor) and paced mode, under whole / one-byte / PRNG chunking, short writes and Pending. The reference model predicts, event by event, command frame, one 80 00 00 per packet written at the packet's end offset and before the item is handed over, items in order with the packet type's own decode, end right after the first final packet, cursor at its end, queued tail untouched, no I/O after the end. Packets longer than 254 bytes (extended header) and of exactly 4096, 4097, 8192 ... 65535 body bytes occur in every alphabet; a paced terminal stalls at every byte position of the first packets (4.999 s, 5.001 s, 61 s of virtual time) and at PRNG positions.",
    note="Trusted: the reply-alphabet table (DESIGN 5.2), reference codec; bounded depth."),
  "C06": dict(level="fault_enumeration", engine=WIRE, ref="6 (C06)",
    technique="deterministic simulation: single-fault enumeration at every position of every exchange, multi-fault seeded search",
@@ -31,35 +31,35 @@ CHECKS = {
    note="Trusted: reply-alphabet table; the clause about inputs shorter than two bytes cannot arise on the wire and is not covered."),
  "C11": dict(level="exploration", engine=WIRE, ref="6 (C11)",
    technique="deterministic simulation: seeded search over payload directories, block sizes, request scripts and I/O schedules against a reference model reading the same files",
-   text="The real WriteFile::into_stream runs over a payload directory the simulator writes per run (PRNG subset of the 21 recognised paths incl. none, unrelated files/directories, sizes around block multiples up to 200 KiB, PRNG content) against a scripted terminal whose request script covers any order, repeats, overlaps, offsets at/after end of file, unknown ids and requests lacking id / offset / container / TLV, ending in completion or abort, in lockstep/eager/paced mode under PRNG chunking and short writes. Oracle: announced list equals the recognised files present with true sizes (as a set); each request is answered by exactly one WriteData echoing id and offset with file[offset..min(offset+block,size)] byte for byte, written at the request's end offset and before the item is handed over; an invalid request yields one error and no data.",
-   note="Trusted: harness copy of the path->id table; real files on tmpfs without disk faults (no seam in WriteFile); reference TLV codec."),
+   text="The real WriteFile::into_stream runs over a payload directory the simulator writes per run (PRNG subset of the 21 recognised paths incl. none, unrelated files/directories, sizes around block multiples up to 200 KiB, PRNG content) against a scripted terminal whose request script covers any order, repeats, overlaps, offsets at/after end of file, unknown ids and requests lacking id / offset / container / TLV, ending in completion or abort, in lockstep/eager/paced mode under PRNG chunking and short writes. Oracle: announced list equals the recognised files present with true sizes (as a set); each request is answered by exactly one WriteData echoing id and offset with file[offset..min(offset+block,size)] byte for byte, written at the request's end offset and before the item is handed over; an invalid request yields one error and no data. File-system faults through the zvt_verif hook of crate zvt: the nth open / read_at of a payload file fails (EIO, ENOENT, EACCES, EINTR) or comes back short - enumerated at every file operation of a five-request upload and sampled; a failing operation may end the upload with exactly one error or be retried, a short read must not shorten the answer, wrong bytes are never accepted.",
+   note="Trusted: harness copy of the path->id table; real files on tmpfs, file-system faults injected through the hook; reference TLV codec."),
  "C07": dict(level="exploration", engine=CLIENT, ref="6 (C07)",
    technique="deterministic simulation: bounded-exhaustive and seeded call histories against a stateful simulated terminal, refinement check against a token->receipt reference model",
-   text="The real Feig (real Feig::new, reconnecting stream, handshake, sequences, codec) runs on a paused tokio clock against the stateful simulated terminal (ledger, receipt counter). Every history over begin/commit/cancel x tokens {A,B,''} to depth 3 (quick) / 4 (thorough) x maximum 0..3 x terminal outcomes {success, abort, no receipt number}, depth-5 call sequences and PRNG walks to depth 40 over 5 tokens under PRNG I/O schedules and emission delays. After every call the reference model decides: refused calls fail with the documented error and cause no traffic at all; an accepted begin sends one Reservation and opens the token iff the terminal issued a receipt; commit/cancel send their reversal with exactly the receipt the terminal's ledger recorded for that token's reference and close the token; ledger cross-invariant for all open tokens. A further family runs PRNG histories under transport faults (EOF, reset, NACK, undecodable body, silence, stall inside a packet, EPIPE, refused connect) against the results-only part of the model: the token map is tracked from the returned results, so refusals without traffic, 'same receipt on every attempt' and 'receipt was offered for this reference' stay decidable.",
+   text="The real Feig (real Feig::new, reconnecting stream, handshake, sequences, codec) runs on a paused tokio clock against the stateful simulated terminal (ledger, receipt counter). Every history over begin/commit/cancel x tokens {A,B,''} to depth 3 (quick) / 4 (thorough) x maximum 0..3 x terminal outcomes {success, abort, no receipt number}, depth-5 call sequences and PRNG walks to depth 40 over 5 tokens under PRNG I/O schedules and emission delays. After every call the reference model decides: refused calls fail with the documented error and cause no traffic at all; an accepted begin sends one Reservation and opens the token iff the terminal issued a receipt; commit/cancel send their reversal with exactly the receipt the terminal's ledger recorded for that token's reference and close the token; ledger cross-invariant for all open tokens. A further family runs PRNG histories under transport faults (EOF, reset, NACK, undecodable body, silence, stall inside a packet, EPIPE, refused connect) against the results-only part of the model: the token map is tracked from the returned results, so refusals without traffic, 'same receipt on every attempt' and 'the receipt is the one the terminal issued with the completion it actually emitted (not one offered in an attempt that never completed)' stay decidable; one fault of 7 kinds at every emission point of three begin/commit/cancel workloads is enumerated.",
    note="Trusted: the simulated terminal (pt.rs) and the reference codec; fault-free transport (faults: C09/C10)."),
  "C08": dict(level="exploration", engine=CLIENT, ref="6 (C08)",
    technique="deterministic simulation: seeded search over amounts, currencies, tokens, receipt numbers and terminal status fields; requests decoded by an independent reference codec, ledger conservation",
-   text="Same engine, value-focused workload: boundary grid pre-authorisation {0,1,2,2500,99999,100000,10^12-2,10^12-1} x final amount {0,1,pre-1,pre,pre+1,2pre,u64::MAX,u64::MAX-1,2^63} x 3 currencies (exhaustive), PRNG amounts over every digit count, CP437 tokens 0..64 bytes, receipt counter incl. wrap at 9999, status fields over their ranges, passwords 0..999999, 1-3 concurrent transactions. Oracle: Reservation carries the configured amount/currency, payment type 40 and AC/token; PartialReversal carries max(pre-final,0) (computed in u128), the reservation's receipt, currency and token; PreAuthReversal its receipt and currency; the terminal's ledger ends with exactly that amount released; the summary equals numerically the last status information the terminal sent (a preliminary one with other values may precede it). The client's configuration goes through the crate's own JSON deserializer (currency by ISO 4217 name, independent table in the harness); a further family repeats the value workload under transport faults (every request incl. retries must carry the right fields; the summary must be that of the exchange the terminal completed).",
+   text="Same engine, value-focused workload: boundary grid pre-authorisation {0,1,2,2500,99999,100000,10^12-2,10^12-1} x final amount {0,1,pre-1,pre,pre+1,2pre,u64::MAX,u64::MAX-1,2^63} x 3 currencies (exhaustive), PRNG amounts over every digit count, CP437 tokens 0..64 bytes and at lengths where an enclosing TLV length crosses 127/128 and 255/256 (up to 5000), cards read before transactions begin (card-side pre-authorisation limit 1F0B and the other card TLVs present), receipt counter incl. wrap at 9999, status fields over their ranges, passwords 0..999999, 1-3 concurrent transactions. Oracle: Reservation carries the configured amount/currency, payment type 40 and AC/token; PartialReversal carries max(pre-final,0) (computed in u128), the reservation's receipt, currency and token; PreAuthReversal its receipt and currency; the terminal's ledger ends with exactly that amount released; the summary equals numerically the last status information the terminal sent (a preliminary one with other values may precede it). The client's configuration goes through the crate's own JSON deserializer (currency by ISO 4217 name, independent table in the harness); a further family repeats the value workload under transport faults (every request incl. retries must carry the right fields; the summary must be that of the exchange the terminal completed).",
    note="Trusted: reference codec (BMP table, TLV); yore's CP437 table for token bytes; simulated terminal's ledger."),
  "C09": dict(level="fault_enumeration", engine=CLIENT, ref="6 (C09)",
    technique="deterministic simulation with fault injection: single-fault enumeration over every emission point of every connection, seeded multi-fault search, oracle over the per-connection event log",
-   text="Faulty-transport configuration: one fault at every emission point of connection 0 (handshake, Feig::new's configure, every exchange of 5 workloads; points found by a fault-free dry run) x {EOF, EOF mid-frame, ECONNRESET, NACK, foreign control field, undecodable body, junk, silence, stall inside a packet, EPIPE on the client's next write, wrong serial}, the same plus a second fault at each handshake point of the retry connection, 0..21 refused connects, serial in other letter case (accepted), serial differing in any other way incl. shorter/longer/prefix (never used for commands), non-final packets in the pending query, PRNG multi-fault sequences over connections 0..5 with PRNG schedules. Oracle on the event log: R1 every connection starts with Registration (configured password/currency) and the identity request, commands only after a matching serial; R2 after a fault no client frame on that connection and it is dropped before the next opens / the call returns; R2b the terminal never sees a frame stacked on an unfinished exchange; R3 a call without fault keeps the connection for the next; R4 one connection at a time; R5 a state-independent call after the last fault succeeds.",
+   text="Faulty-transport configuration: one fault at every emission point of connection 0 (handshake, Feig::new's configure, every exchange of 5 workloads; points found by a fault-free dry run) x {EOF, EOF mid-frame, ECONNRESET, NACK, foreign control field, undecodable body, junk, silence, stall inside a packet, EPIPE on the client's next write, wrong serial, identity request answered with a well-formed abort}, the same plus a second fault at each handshake point of the retry connection, 0..21 refused connects, serial in other letter case (accepted), serial differing in any other way incl. shorter/longer/prefix (never used for commands), non-final packets in the pending query, PRNG multi-fault sequences over connections 0..5 with PRNG schedules. Oracle on the event log: R1 every connection starts with Registration (configured password/currency) and the identity request, commands only after a matching serial; R2 after a fault no client frame on that connection and it is dropped before the next opens / the call returns; after a failed write neither another write attempt nor a read; R2b the terminal never sees a frame stacked on an unfinished exchange; R3 a call without fault keeps the connection for the next; R4 one connection at a time; R5 a state-independent call after the last fault succeeds.",
    note="Trusted: lockstep terminal model; abort = completed exchange; no time-out value in the oracle."),
  "C10": dict(level="fault_enumeration", engine=CLIENT, ref="6 (C10)",
    technique="deterministic simulation with fault injection on a discrete-event clock: stall enumeration at every emission point, connect hangs, exhaustive read_card_timeout",
-   text="A stall (silence) at every emission point of connection 0 x later connections {healthy, stall at the same point, terminal dead for ever (stalls in the handshake of every later connection, without end), every later connect never completes}, connect-hang patterns, read_card_timeout 0..255 x card arrival {at once, 1 ms before the window closes, mid-window} and x a terminal that never answers, configuration extremes, PRNG stalls with schedule noise. W1: every public call returns Ok/Err before a one-virtual-day watchdog and never panics (overflow checks on). W2: a card delivered inside the configured window is answered on the first connection for every time-out value. The bound itself (max virtual duration, attempts) is reported, not judged.",
+   text="A stall (silence) at every emission point of connection 0 x later connections {healthy, stall at the same point, terminal dead for ever (stalls in the handshake of every later connection, without end), every later connect never completes}, unsolicited bytes behind every frame (complete packet, one byte, partial header / body) with the connection left open, connect-hang patterns, read_card_timeout 0..255 x card arrival {at once, 1 ms before the window closes, mid-window} and x a terminal that never answers, configuration extremes and values beyond the width of their wire fields (password, amount, currency, terminal id - also terminal ids spelled differently from the eight digits the terminal reports), PRNG stalls with schedule noise. W1: every public call returns Ok/Err before a one-virtual-day watchdog and never panics (overflow checks on). W2: a card delivered inside the configured window is answered on the first connection for every time-out value. The bound itself (max virtual duration, attempts) is reported, not judged.",
    note="Trusted: tokio's paused clock as discrete-event time; delays never tie with timers."),
  "C18": dict(level="exploration", engine=CLIENT, ref="6 (C18)",
    technique="deterministic simulation: read_card against simulated status replies, each card presented repeatedly under different schedules, compared with the stated classification function",
-   text="read_card through the real client against status replies: grid of 16 UID forms (absent, empty, 1..20 bytes, zero-padded, exactly 7/8/10 bytes) x 9 application-list forms, each presented three times in one run under different schedules, delays and BMP orders; all 256 abort codes; PRNG cards presented repeatedly. Oracle f(reply): first application entry with id -> Bank; entries listed but first without id -> Bank or error, never Membership; no entries and UID -> Membership(upper-case hex, last 14 digits, one leading 000000 removed), identical for every presentation; 6C -> NoCardPresented; other aborts / nothing usable -> error. The grid is repeated with a connection failure and reconnect between / inside the presentations (a card is never classified wrongly, whatever the transport does).",
+   text="read_card through the real client against status replies: grid of 16 UID forms (absent, empty, 1..20 bytes, zero-padded, exactly 7/8/10 bytes) x 9 application-list forms, each presented three times in one run under different schedules, delays and BMP orders; all 256 abort codes; cards that arrive after 63..255 intermediate statuses and in status informations of more than 254 bytes (21/22/60 applications); PRNG cards presented repeatedly. Oracle f(reply): first application entry with id -> Bank; entries listed but first without id -> Bank or error, never Membership; no entries and UID -> Membership(upper-case hex, last 14 digits, one leading 000000 removed), identical for every presentation; 6C -> NoCardPresented; other aborts / nothing usable -> error. The grid is repeated with a connection failure and reconnect between / inside the presentations (a card is never classified wrongly, whatever the transport does).",
    note="Trusted: the classification function as stated in the property; applications listed only inside tag 62 are outside the anchored mechanism and not judged."),
  "C19": dict(level="exploration", engine=CLIENT, ref="6 (C19)",
    technique="deterministic simulation: call histories x terminal ledgers x end-of-day outcomes, temporal oracle over the ordered request log",
-   text="commit/cancel x (another token open or not) x pending-query answer {FFFF, no BMP 87, dangling receipt} x end-of-day outcome {completion, all 256 abort codes} with and without intermediate/print packets (exhaustive grid), every history to depth 3, PRNG walks with clean-up variants. Oracle on the request log of each call: own reversal completed and no token left open -> next frames are exactly 06 23/FFFF, then iff a receipt was reported its 06 25 (configured currency), then 06 50 (configured password); Ok for completion and abort A0, error for any other code; while other tokens are open neither 06 50 nor the query is sent; end-of-day never reaches the terminal while a dangling pre-authorisation it reported (or tried to report) is still open - also when its reversal was refused or the query was hit by a transport fault (PRNG histories under faults).",
+   text="commit/cancel x (another token open or not) x pending-query answer {FFFF, no BMP 87, dangling receipt} x end-of-day outcome {completion, all 256 abort codes} with and without intermediate/print packets (exhaustive grid), every history to depth 3, PRNG walks with clean-up variants. Oracle on the request log of each call: own reversal completed and no token left open -> next frames are exactly 06 23/FFFF, then iff a receipt was reported its 06 25 (configured currency), then 06 50 (configured password); Ok for completion and abort A0, error for any other code; while other tokens are open neither 06 50 nor the query is sent; end-of-day never reaches the terminal while a dangling pre-authorisation it reported (or tried to report) is still open - also when its reversal was refused or the query was hit by a transport fault (PRNG histories under faults). Bounded liveness: when the terminal merely closes the connection between two exchanges of the call (enumerated at every point of five workloads), the clean-up still reaches end-of-day.",
    note="Trusted: simulated terminal's pending-query behaviour (2.10.1); nothing is asserted when the terminal refused the call's own reversal."),
  "C20": dict(level="exploration", engine=CLIENT, ref="6 (C20)",
    technique="deterministic simulation: every abort-capable exchange x all 256 result codes x abort position, against the simulated terminal",
-   text="9 abort-capable exchanges (read card, reservation, partial reversal, pre-auth reversal, end-of-day after commit / after cancel, configure's system info / set terminal id / initialisation) x all 256 codes x abort after 0..3 non-final packets (exhaustive), configure's end-of-day x 256, PRNG walks with raised abort rate. Oracle: the call fails (never Ok) and the error identifies the code (structured Aborted(c), the number as decimal/hex token, or for card reading the chapter-10 message of c and not of another code); exactly three exceptions: read card + 6C -> NoCardPresented, reservation + FC -> NeedsPinEntry, end-of-day + A0 tolerated. Under transport faults (every emission point of cancel/commit/begin x 6 fault kinds, PRNG histories): an abort that the terminal delivered for the last attempt of the call's own command is never reported as success (e.g. 'already reversed' on a repeated reversal).",
+   text="9 abort-capable exchanges (read card, reservation, partial reversal, pre-auth reversal, end-of-day after commit / after cancel, configure's system info / set terminal id / initialisation) x all 256 codes x abort after 0..3 non-final packets (exhaustive), configure's end-of-day x 256, reservation aborts in the richer forms of ZVT 2.2.9 (currency code, TLV with extended error code and text) x 256 codes, aborts after 63..255 intermediate and print packets, PRNG walks with raised abort rate. Oracle: the call fails (never Ok) and the error identifies the code (structured Aborted(c), the number as decimal/hex token, or for card reading the chapter-10 message of c and not of another code); exactly three exceptions: read card + 6C -> NoCardPresented, reservation + FC -> NeedsPinEntry, end-of-day + A0 tolerated. Under transport faults (every emission point of cancel/commit/begin x 6 fault kinds, PRNG histories): an abort that the terminal delivered for the last attempt of the call's own command is never reported as success (e.g. 'already reversed' on a repeated reversal).",
    note="Trusted: chapter-10 message table transcribed in model.rs; handshake-level aborts are retried by design and not part of the seven anchored places."),
 }
 
@@ -95,15 +95,15 @@ def main():
         "version": 1,
         "setup_cmd": "cd /verif/sim && CARGO_NET_OFFLINE=true cargo build --release --offline",
         "hooks": {
-            "guard": "cargo feature zvt_verif (crate zvt_feig_terminal)",
-            "enable": "/verif/sim depends on /repo/zvt_feig_terminal by path with features=[\"zvt_verif\"]; every check runs `cargo build --release --offline` in /verif/sim first, which rebuilds /repo's working tree",
+            "guard": "cargo feature zvt_verif (crates zvt_feig_terminal and zvt)",
+            "enable": "/verif/sim depends on /repo/zvt_feig_terminal and /repo/zvt by path with features=[\"zvt_verif\"]; every check runs `cargo build --release --offline` in /verif/sim first, which rebuilds /repo's working tree",
             "baseline_off_cmd": "cd /repo && cargo test --workspace --no-fail-fast --offline",
-            "source_commits": [HOOK_COMMIT],
+            "source_commits": HOOK_COMMITS,
             "add_only": True,
         },
         "engines": [
             {"name": WIRE, "path": "/verif/sim", "serves_properties": [p for p in sorted(CHECKS) if CHECKS[p]["engine"] == WIRE],
-             "kind_free_text": "deterministic simulation of one connection: real zvt transport/sequences/decoders over SimConn (plan-decided read sizes, Pending, short writes, EOF/reset/EPIPE) against a scripted terminal; own single-future executor with stuck detection; seeded PRNG (xoshiro256**) decides everything; failures shrunk and written as replay files"},
+             "kind_free_text": "deterministic simulation of one connection: real zvt transport/sequences/decoders over SimConn (plan-decided read sizes, Pending, short writes, EOF/reset/EPIPE) against a scripted terminal; own single-future executor with stuck detection, run inside a per-thread tokio runtime with paused clock (simulated peer stalls; code under test may use tokio time/fs); seeded PRNG (xoshiro256**) decides everything; failures shrunk and written as replay files"},
             {"name": CLIENT, "path": "/verif/sim", "serves_properties": [p for p in sorted(CHECKS) if CHECKS[p]["engine"] == CLIENT],
              "kind_free_text": "deterministic simulation of the terminal client: real zvt_feig_terminal::Feig and reconnecting stream on a tokio current-thread runtime with paused (discrete-event) clock, SimNet connector behind the zvt_verif hook, stateful simulated payment terminal with ledger and fault plan"},
         ],
